@@ -460,12 +460,12 @@ func c17FlatCase(res *core.Result, rng *rand.Rand, idx int) {
 					vals[k] = "x"
 				}
 			case p == 2:
-				vals[k] = "same"
+				vals[k] = []string{"same", "sa me", "sa+me"}[len(keys)%3]
 			case p == 3:
 				if !seen[g] {
-					vals[k] = "other"
+					vals[k] = []string{"other", "sa+me", "sa me"}[len(keys)%3]
 				} else {
-					vals[k] = "same"
+					vals[k] = []string{"same", "sa me", "sa+me"}[len(keys)%3]
 				}
 			default:
 				vals[k] = fmt.Sprintf("v%d", i)
@@ -529,7 +529,13 @@ func c17FlatCase(res *core.Result, rng *rand.Rand, idx int) {
 				q = append(q, url.QueryEscape(k)) // an empty member written without '='
 				res.Count("url_bare_member_keys")
 			} else {
-				q = append(q, url.QueryEscape(k)+"="+url.QueryEscape(vals[k]))
+				// a blank may travel as '+' or as %20, a plus sign only as %2B: equal values are equal
+				// however each member happens to be spelled
+				ev := url.QueryEscape(vals[k])
+				if rng.Intn(2) == 0 {
+					ev = strings.ReplaceAll(ev, "+", "%20")
+				}
+				q = append(q, url.QueryEscape(k)+"="+ev)
 			}
 			entries = append(entries, ref.FlatEntry{Key: k, Val: reflect.ValueOf(vals[k])})
 		}
